@@ -22,3 +22,4 @@ def rules(ctx):
     S.key_compare_rules(ctx)
     S.root_pair_rules(ctx)
     S.replaced_range_rules(ctx)
+    S.survey_residue_rules(ctx)
